@@ -7,9 +7,17 @@
 //	T2  x.Lock()/x.Unlock() on sync.Mutex -> simLock(x)/simUnlock(x): hook, then the real call
 //	T3  go f(a, b)                      -> args evaluated now, simGo(func(){ f(a', b') })
 //	T4  ch <- v                         -> simSend(ch, v, site): a scheduling point, then the real send
+//	T5  (only with -t5, in the -t23 packages) a scheduling point right AFTER every channel receive:
+//	    for v := range ch { B }         -> for v := range ch { simAfterRecv(site); B }; simAfterRecv(site)
+//	    v := <-ch | v, ok = <-ch | <-ch | var v = <-ch   -> the statement, then simAfterRecv(site)
+//	    select { case v := <-ch: B }    -> simAfterRecv(site) is the first statement of B
+//	    Receives anywhere else (conditions, return, arguments of go/defer, two receives in one statement), sends
+//	    in select cases and selects with two or more communication cases (the runtime picks among ready cases at
+//	    random) are reported as uncontrolled. With -t5 report.json also carries a census of the go statements and
+//	    channel operations seen, and sends of constants / nil get a scheduling point too.
 //
-// Usage: instr -moddir <harness module dir> -out <dir> [-t1 pkg,...] [-t23 pkg,...]
-// Fails closed (exit 2) on anything it cannot handle.
+// Usage: instr -moddir <harness module dir> -out <dir> [-t1 pkg,...] [-t23 pkg,...] [-t5]
+// Fails closed (exit 2) on anything it cannot handle. Without -t5 the output is exactly what it was before T5 existed.
 package main
 
 import (
@@ -49,6 +57,8 @@ type siteReport struct {
 var (
 	report       []siteReport
 	uncontrolled []siteReport
+	t5on         bool
+	census       = map[string]int{"go_statements": 0, "channel_sends": 0, "channel_receives": 0, "channel_ranges": 0, "selects": 0, "channel_closes": 0}
 )
 
 func die(format string, a ...interface{}) {
@@ -63,7 +73,9 @@ func main() {
 	t23 := flag.String("t23", "", "comma separated import paths that get T2+T3 (and T1)")
 	only := flag.String("onlyfiles", "", "optional: for packages in -t1only, comma list pkg:file restricting T1 to these files")
 	gocmd := flag.String("go", "go1.26.8", "go command")
+	t5 := flag.Bool("t5", false, "T5 in the -t23 packages: scheduling points after channel receives, census of go statements / channel operations, fail-closed reports for channel shapes that are not rewritten")
 	flag.Parse()
+	t5on = *t5
 	if *moddir == "" || *out == "" {
 		die("need -moddir and -out")
 	}
@@ -198,6 +210,9 @@ func main() {
 			n++
 			dst := filepath.Join(*out, "files", fmt.Sprintf("%03d_zz_verif_simrt.go", n))
 			src := strings.Replace(simrtSrc, "package PKG", "package "+tpkg.Name(), 1)
+			if t5on {
+				src += simrtT5Src
+			}
 			if err := os.WriteFile(dst, []byte(src), 0o644); err != nil {
 				die("%v", err)
 			}
@@ -208,7 +223,11 @@ func main() {
 	if err := os.WriteFile(filepath.Join(*out, "overlay.json"), ob, 0o644); err != nil {
 		die("%v", err)
 	}
-	rb, _ := json.MarshalIndent(map[string]interface{}{"instrumented": report, "uncontrolled": uncontrolled}, "", " ")
+	rmap := map[string]interface{}{"instrumented": report, "uncontrolled": uncontrolled}
+	if t5on {
+		rmap["census"] = census
+	}
+	rb, _ := json.MarshalIndent(rmap, "", " ")
 	if err := os.WriteFile(filepath.Join(*out, "report.json"), rb, 0o644); err != nil {
 		die("%v", err)
 	}
@@ -217,6 +236,10 @@ func main() {
 		cnt[r.Kind]++
 	}
 	fmt.Printf("instr: %d files rewritten; T1=%d T2=%d T3=%d T4=%d uncontrolled=%d\n", len(overlay), cnt["T1"], cnt["T2"], cnt["T3"], cnt["T4"], len(uncontrolled))
+	if t5on {
+		fmt.Printf("instr: T5=%d; census: %d go statements, %d channel sends, %d receives, %d ranges over channels, %d selects, %d closes\n", cnt["T5"],
+			census["go_statements"], census["channel_sends"], census["channel_receives"], census["channel_ranges"], census["selects"], census["channel_closes"])
+	}
 }
 
 func relName(ip, full string) string {
@@ -233,6 +256,72 @@ type rewriter struct {
 	changed bool
 	funcs   []string
 	siteN   map[string]int
+	// T5: receive expressions seen by exprs() since the innermost enclosing statement list began handling a statement
+	pendingRecv int
+}
+
+func (r *rewriter) t5() bool { return t5on && r.level >= 3 }
+
+func (r *rewriter) giveUpSched(kind string, pos token.Pos, why string) {
+	uncontrolled = append(uncontrolled, siteReport{Kind: kind, Site: r.site(kind+"!", pos), Note: why})
+}
+
+func (r *rewriter) afterRecvCall(pos token.Pos, note string) ast.Stmt {
+	site := r.site("T5", pos)
+	r.changed = true
+	report = append(report, siteReport{Kind: "T5", Site: site, Note: note})
+	return &ast.ExprStmt{X: &ast.CallExpr{Fun: ast.NewIdent("simAfterRecv"),
+		Args: []ast.Expr{&ast.BasicLit{Kind: token.STRING, Value: fmt.Sprintf("%q", site)}}}}
+}
+
+// stmtList rewrites the statements of a list; with T5 a statement that holds one channel receive is followed by
+// the scheduling point, and a range over a channel is followed by one (the receive that saw the channel closed).
+func (r *rewriter) stmtList(list []ast.Stmt) []ast.Stmt {
+	if !r.t5() {
+		for i, s := range list {
+			list[i] = r.stmt(s)
+		}
+		return list
+	}
+	var out []ast.Stmt
+	for _, s := range list {
+		outer := r.pendingRecv
+		r.pendingRecv = 0
+		isChanRange := false
+		if rs, ok := s.(*ast.RangeStmt); ok {
+			isChanRange = r.isChan(rs.X)
+		}
+		ns := r.stmt(s)
+		got := r.pendingRecv
+		r.pendingRecv = outer
+		out = append(out, ns)
+		if isChanRange {
+			out = append(out, r.afterRecvCall(s.End(), "after the range over a channel ended"))
+		}
+		if got == 0 {
+			continue
+		}
+		switch s.(type) {
+		case *ast.AssignStmt, *ast.ExprStmt, *ast.DeclStmt:
+			if got == 1 {
+				out = append(out, r.afterRecvCall(s.Pos(), "after a statement with a receive"))
+				continue
+			}
+			r.giveUpSched("T5", s.Pos(), fmt.Sprintf("%d receives in one statement: no scheduling point between them", got))
+		default:
+			r.giveUpSched("T5", s.Pos(), fmt.Sprintf("receive inside a %T (condition, init, return value, argument of go/defer, operand of a send): not rewritten", s))
+		}
+	}
+	return out
+}
+
+func (r *rewriter) isChan(e ast.Expr) bool {
+	tv, ok := r.info.Types[e]
+	if !ok || tv.Type == nil {
+		return false
+	}
+	_, isCh := tv.Type.Underlying().(*types.Chan)
+	return isCh
 }
 
 func (r *rewriter) site(kind string, pos token.Pos) string {
@@ -272,9 +361,7 @@ func (r *rewriter) block(b *ast.BlockStmt) {
 	if b == nil {
 		return
 	}
-	for i, s := range b.List {
-		b.List[i] = r.stmt(s)
-	}
+	b.List = r.stmtList(b.List)
 }
 
 func (r *rewriter) stmt(s ast.Stmt) ast.Stmt {
@@ -304,6 +391,11 @@ func (r *rewriter) stmt(s ast.Stmt) ast.Stmt {
 	case *ast.RangeStmt:
 		r.exprs(s.X)
 		r.block(s.Body)
+		if r.t5() && r.isChan(s.X) {
+			census["channel_ranges"]++
+			s.Body.List = append([]ast.Stmt{r.afterRecvCall(s.Pos(), "first statement of the body of a range over a channel")}, s.Body.List...)
+			return s
+		}
 		return r.rangeStmt(s)
 	case *ast.SwitchStmt:
 		if s.Init != nil {
@@ -320,31 +412,64 @@ func (r *rewriter) stmt(s ast.Stmt) ast.Stmt {
 		s.Assign = r.stmt(s.Assign)
 		r.block(s.Body)
 	case *ast.SelectStmt:
+		if r.t5() {
+			census["selects"]++
+			comm := 0
+			for _, c := range s.Body.List {
+				if cc, ok := c.(*ast.CommClause); ok && cc.Comm != nil {
+					comm++
+				}
+			}
+			if comm >= 2 {
+				r.giveUpSched("T5", s.Pos(), fmt.Sprintf("select with %d communication cases: the runtime chooses among ready cases at random", comm))
+			}
+			// the clauses are not statements of a list that could take a scheduling point: walk them directly
+			for i, c := range s.Body.List {
+				s.Body.List[i] = r.stmt(c)
+			}
+			break
+		}
 		r.block(s.Body)
 	case *ast.CaseClause:
 		for _, e := range s.List {
 			r.exprs(e)
 		}
-		for i, st := range s.Body {
-			s.Body[i] = r.stmt(st)
-		}
+		s.Body = r.stmtList(s.Body)
 	case *ast.CommClause:
 		// the communication of a select case is left as it is (only its operands are walked)
+		outer := r.pendingRecv
+		r.pendingRecv = 0
 		switch c := s.Comm.(type) {
 		case *ast.SendStmt:
 			r.exprs(c.Chan)
 			r.exprs(c.Value)
+			if r.t5() {
+				census["channel_sends"]++
+				r.giveUpSched("T4", c.Pos(), "send in a select case: no scheduling point before it")
+			}
 		case nil:
 		default:
 			s.Comm = r.stmt(s.Comm)
 		}
-		for i, st := range s.Body {
-			s.Body[i] = r.stmt(st)
+		got := r.pendingRecv
+		r.pendingRecv = outer
+		s.Body = r.stmtList(s.Body)
+		if r.t5() {
+			if _, isSend := s.Comm.(*ast.SendStmt); isSend && got > 0 {
+				r.giveUpSched("T5", s.Pos(), "receive inside the operands of a select send case")
+			} else if got == 1 {
+				s.Body = append([]ast.Stmt{r.afterRecvCall(s.Pos(), "first statement of a select receive case")}, s.Body...)
+			} else if got > 1 {
+				r.giveUpSched("T5", s.Pos(), fmt.Sprintf("%d receives in one select case", got))
+			}
 		}
 	case *ast.LabeledStmt:
 		s.Stmt = r.stmt(s.Stmt)
 	case *ast.GoStmt:
 		r.exprs(s.Call)
+		if r.t5() {
+			census["go_statements"]++
+		}
 		if r.level >= 3 {
 			return r.goStmt(s)
 		}
@@ -366,6 +491,9 @@ func (r *rewriter) stmt(s ast.Stmt) ast.Stmt {
 	case *ast.SendStmt:
 		r.exprs(s.Chan)
 		r.exprs(s.Value)
+		if r.t5() {
+			census["channel_sends"]++
+		}
 		if r.level >= 3 {
 			return r.sendStmt(s)
 		}
@@ -401,6 +529,18 @@ func (r *rewriter) exprs(e ast.Expr) {
 		case *ast.CallExpr:
 			if r.level >= 3 {
 				r.mutexCall(n)
+			}
+			if r.t5() {
+				if id, ok := n.Fun.(*ast.Ident); ok && id.Name == "close" && len(n.Args) == 1 && r.isChan(n.Args[0]) {
+					if _, builtin := r.info.Uses[id].(*types.Builtin); builtin {
+						census["channel_closes"]++
+					}
+				}
+			}
+		case *ast.UnaryExpr:
+			if n.Op == token.ARROW && r.t5() {
+				census["channel_receives"]++
+				r.pendingRecv++
 			}
 		}
 		return true
@@ -467,6 +607,14 @@ func (r *rewriter) mutexCall(c *ast.CallExpr) {
 func (r *rewriter) sendStmt(s *ast.SendStmt) ast.Stmt {
 	tv := r.info.Types[s.Value]
 	if tv.Value != nil || tv.IsNil() {
+		if r.t5() {
+			// { simSendPoint(site); ch <- v }: the same scheduling point without naming the element type
+			site := r.site("T4", s.Pos())
+			r.changed = true
+			report = append(report, siteReport{Kind: "T4", Site: site, Note: "constant or nil operand"})
+			return &ast.BlockStmt{List: []ast.Stmt{&ast.ExprStmt{X: &ast.CallExpr{Fun: ast.NewIdent("simSendPoint"),
+				Args: []ast.Expr{&ast.BasicLit{Kind: token.STRING, Value: fmt.Sprintf("%q", site)}}}}, s}}
+		}
 		return s // untyped constant / nil operand: leave the statement alone (reported as uncontrolled)
 	}
 	site := r.site("T4", s.Pos())
@@ -776,5 +924,23 @@ func simGo(fn func(), site string) {
 		return
 	}
 	go fn()
+}
+`
+
+// appended to the runtime file only with -t5
+const simrtT5Src = `
+// SimAfterRecv is called right after a channel receive of the library completed (T5); it may park the caller.
+var SimAfterRecv func(site string)
+
+func simAfterRecv(site string) {
+	if SimAfterRecv != nil {
+		SimAfterRecv(site)
+	}
+}
+
+func simSendPoint(site string) {
+	if SimBeforeSend != nil {
+		SimBeforeSend(site)
+	}
 }
 `
